@@ -12,3 +12,5 @@ CONSTANTS
   PartFix = TRUE
   SubAt = "first"
   SyncSteps = FALSE
+  StallSteps = FALSE
+  SkipSeenByListing = FALSE
